@@ -193,6 +193,17 @@ def check(case):
             out.applies('degenerate-transmittance')
             if not close(tau_k, tau_x, rtol=1e-9, atol=1e-12):
                 out.fail('degenerate-transmittance', 'layer transmittances differ (max abs %.2e)' % float(np.max(np.abs(tau_k - tau_x))))
+    if family != 'transmission':
+        # the layer terms the emission families return next to the spectrum (model()[2], what contribution functions are
+        # drawn from) are differences of two transmittances, the column above a layer minus the column from the layer up:
+        # each lies in [0, 1]; with degenerate tables they are the cross-section run's, up to the licensed cut-off
+        # (a transmittance below e^-10 may be reported as zero by either path)
+        cut_ = math.exp(-10.0) * (1 + 1e-6)
+        out.applies('emission-layer-terms')
+        if np.any(tau_k < -cut_) or np.any(tau_k > 1.0 + 1e-12):
+            out.fail('emission-layer-terms@%s,unit-interval' % family, 'layer term range [%r, %r]' % (float(tau_k.min()), float(tau_k.max())))
+        elif case['degenerate'] and not np.all(np.abs(tau_k - tau_x) <= 1e-9 * np.abs(tau_x) + 2 * cut_):
+            out.fail('emission-layer-terms@%s,degenerate' % family, 'layer terms differ from the cross-section run (max abs %.2e)' % float(np.max(np.abs(tau_k - tau_x))))
     if family != 'transmission' and not grids:
         # reference integral generalised to a k-distribution: the transmittance of the column above
         # a level is  e^{-tau_other/mu} * sum_g w_g e^{-tau_g/mu}
